@@ -87,7 +87,9 @@ def bounds(tier):
                                         ["{1,2,3} and {0,1,2} n <= 4 (all flags)", "{1,2} and {0,1} n = 5 (update_bipartitions=False)",
                                          "{1,2} binary n = 6 (default flags)"]),
         },
-        "rootings": "rooted, unrooted; undefined for the unit pattern" + (" (and none / distinct-integer patterns n <= 4)" if q else ", none and distinct-integer patterns"),
+        "rootings": "rooted, unrooted; undefined for the unit pattern" + (" (and none / distinct-integer patterns n <= 4)" if q else
+                    ", none and distinct-integer patterns (n = 6: unit, distinct integers; binary shapes also non-dyadic, "
+                    "none-unrooted, unit-undefined)"),
         "edge_length_pairs": ["0,L", "L/2,L/2", "L,0", "L/4,3L/4", "None,None (length-free trees)"],
         "rng_seeds": [0, 1, 2, 3], "shuffle_indices": [0, 1, 2, 3, 4, 5],
         "reorient_scripted_shuffle_index_and_update_flag": [[1, False], [3, True]] if q else [[0, False], [1, False], [1, True], [3, True], [5, False]],
@@ -182,9 +184,10 @@ def length_patterns(layer, shape, n, tier):
         seen[key] = menu
         out.append((name, lens, dyadic, menu))
     if layer == "base":
-        add("none", pat_none(k), True, "full")
+        if n <= 5 or U.is_binary(shape):
+            add("none", pat_none(k), True, "full")
+            add("nondyadic", pat_nondyadic(k), False, "full")
         add("unit", pat_unit(k), True, "full")
-        add("nondyadic", pat_nondyadic(k), False, "full")
         add("inc", pat_inc(k), True, "full")
         if n <= 4:
             add("rootedge", pat_rootedge(k), True, "full")
@@ -222,7 +225,13 @@ def length_patterns(layer, shape, n, tier):
     return out
 
 
-def rootings_for(layer, pname, n, tier):
+def rootings_for(layer, pname, n, tier, shape=None):
+    if n >= 6:
+        if pname == "none":
+            return (False,)
+        if pname == "unit" and U.is_binary(shape):
+            return (True, False, None)
+        return (True, False)
     if layer == "base" and (pname == "unit" or (pname in ("none", "inc") and (n <= 4 or tier != "quick"))):
         return (True, False, None)
     if layer == "unif" and pname == "none" and n >= 4 and tier == "quick":
@@ -536,7 +545,7 @@ def run_case(case, ctx, bf=None, deciding=True):
         holder["len0"] = tree.length()
         return apply_op(tree, nodes, op, target, a)
 
-    status, val = budget.guarded(call, wall=20.0, budget=400000)
+    status, val = budget.guarded(call, wall=20.0, budget=2000000)
     tree = holder.get("tree")
     nodes = holder.get("nodes")
 
@@ -676,7 +685,7 @@ def run_chunk(chunk, ctx):
                 bf = Before(sn)
                 lens_defined = all(x is not None for x in lens[1:])
                 ctx.count("length_assignments")
-                for rooted in rootings_for(layer, pname, n, tier):
+                for rooted in rootings_for(layer, pname, n, tier, shape):
                     if menu != "full" and rooted is None:
                         continue
                     ctx.count("trees")
